@@ -172,7 +172,9 @@ def _check_to_vec(ctx, fn, tagged):
     if len(oks) == 1:
         buf = oks[0]["inner"]
         det["buffer"] = show(buf)
-        if is_call(buf, "alloc::vec::Vec::<T>::new"):
+        from lib.prov import unmutated
+        buf, handed_out = unmutated(buf)
+        if (is_call(buf, "alloc::vec::Vec::<T>::new") or is_call(buf, "alloc::vec::Vec::<T>::with_capacity")) and len(handed_out) == 1:
             # writes into the buffer: exactly one, by into_writer
             effs = [e for e in pv.effects() if e["kind"] == "call" and e["place"][0] == "local"
                     and fn.local_ty(e["place"][1]).startswith("alloc::vec::Vec<u8>")]
